@@ -162,7 +162,7 @@ PROPERTY = {
 
 _B = (True, False)
 HARNESSES = [
-    dict(name='state-roundtrip', fn='h_roundtrip', property=['C17'],
+    dict(name='state-roundtrip', bounded='one enumerated architecture per method, enumerated search actions; state values symbolic (MPS: weights concrete)', fn='h_roundtrip', property=['C17'],
          functions=['plinio/methods/pit/pit.py::PIT.__init__', 'plinio/methods/supernet/supernet.py::SuperNet.__init__', 'plinio/methods/mps/mps.py::MPS.__init__',
                     'plinio/methods/supernet/supernet.py::SuperNet.update_softmax_options', 'plinio/methods/mps/mps.py::MPS.update_softmax_options',
                     'plinio/methods/pit/pit.py::PIT.export', 'plinio/methods/supernet/supernet.py::SuperNet.export', 'plinio/methods/mps/mps.py::MPS.export'],
